@@ -189,6 +189,14 @@ class Ctx:
                 self.broken.append({'kind': 'driver', 'name': nm, 'detail': detail})
         if self.props_ok:
             self.audit(props_modules)
+            if self.tier == 'thorough':
+                # independent re-check of the compiled proofs by the toolchain's leanchecker
+                rc, out = run_cmd(['lake', 'env', 'leanchecker'] + list(props_modules), cwd=LEAN_DIR, timeout=1500)
+                self.extra.setdefault('coverage', {})['leanchecker'] = 'ok' if rc == 0 else ('failed: ' + out[-400:])
+                if rc == 124:
+                    raise MachineryError('leanchecker timed out')
+                if rc != 0:
+                    self.broken.append({'kind': 'obligation', 'name': 'leanchecker:' + ','.join(props_modules), 'detail': out[-800:]})
 
     def audit(self, props_modules):
         # 1. forbidden tokens in the sources
